@@ -252,6 +252,9 @@ def _replay(qualname, self_class, res, ob):
             ob.replay = replay_model(qualname, self_class, res, ob)
         except Exception as e:
             ob.replay = {'confirmed': False, 'error': f'{type(e).__name__}: {e}'}
+    if getattr(ob, 'candidate', False) and not (ob.replay and ob.replay.get('confirmed')):
+        # a model of the ground part only that the real code does not confirm proves nothing
+        ob.status, ob.backend, ob.model, ob.replay = 'unknown', 'z3+cvc5', None, None
 
 
 def discharge_all(res, qualname, self_class, timeout_ms, workers=None):
